@@ -3,7 +3,7 @@
 #  (a) patch only: existing suite passes (101); (b) patch + demo: demo fails; (c) demo only: demo passes.
 W=$1; cd $W || exit 2
 export CARGO_NET_OFFLINE=true
-git checkout -q -- . ; git clean -fdq -e _out -e target
+git reset -q --hard; git clean -fdq -e _out -e target
 run() { timeout 1500 cargo test --workspace --no-fail-fast --offline 2>&1 | grep -E "^test result" | awk '{p+=$4; f+=$6} END {print p" passed, "f" failed"}'; }
 git apply _out/patch.diff || { echo "patch does not apply"; exit 2; }
 echo "patch only      : $(run)"
@@ -11,4 +11,4 @@ git apply _out/demo.diff || { echo "demo does not apply"; exit 2; }
 echo "patch + demo    : $(run)"
 git apply -R _out/patch.diff
 echo "demo only       : $(run)"
-git checkout -q -- . ; git clean -fdq -e _out -e target
+git reset -q --hard; git clean -fdq -e _out -e target
